@@ -165,6 +165,7 @@ type Ctx struct {
 	files    []*os.File
 	Exhaustive bool
 	Rule     string
+	violCount map[string]int
 }
 
 func newCtx(prop, dir, tier string, seed uint64) *Ctx {
@@ -206,9 +207,20 @@ func (c *Ctx) scale(quick, thorough int) int {
 func (c *Ctx) addViolation(v Violation) {
 	v.Property = c.Prop
 	if v.Key == "" {
-		v.Key = v.Kind + ":" + v.Query
+		switch v.Kind {
+		case "panic", "crash", "timeout":
+			v.Key = v.Kind + ":" + msgClass(v.Why)
+		case "errdata":
+			v.Key = v.Kind
+		default:
+			v.Key = v.Kind + ":" + v.Cls + ":" + lastFunc(v.Query)
+		}
 	}
-	if len(c.Viol) < 500 {
+	if c.violCount == nil {
+		c.violCount = map[string]int{}
+	}
+	c.violCount[v.Key]++
+	if c.violCount[v.Key] <= 3 && len(c.Viol) < 3000 {
 		c.Viol = append(c.Viol, v)
 	}
 	c.Extra["violations_total"] = asInt(c.Extra["violations_total"]) + 1
@@ -471,7 +483,7 @@ func (c *Ctx) Finish() {
 		"property": c.Prop, "tier": c.Tier, "seed": c.Seed, "evaluations": c.N, "in_domain": c.InDom,
 		"distinct": len(c.Distinct), "distinct_nontrivial": nt, "most_common_outcome": most,
 		"class_histogram": c.Hist, "outcome_histogram": c.OutHist, "violations": c.Viol,
-		"samples": c.Samples, "extra": c.Extra, "exhaustive": c.Exhaustive, "rule": c.Rule,
+		"samples": c.Samples, "extra": c.Extra, "violation_counts": c.violCount, "exhaustive": c.Exhaustive, "rule": c.Rule,
 	}
 	b, _ := json.MarshalIndent(rep, "", " ")
 	os.WriteFile(filepath.Join(c.Dir, "report.json"), b, 0o644)
@@ -480,4 +492,33 @@ func (c *Ctx) Finish() {
 func shortHash(s string) string {
 	h := sha1.Sum([]byte(s))
 	return fmt.Sprintf("%x", h[:6])
+}
+
+// lastFunc: the name of the last function called in a query (groups violations by call site)
+func lastFunc(q string) string {
+	end := strings.LastIndex(q, "(")
+	for end > 0 {
+		i := end
+		for i > 0 && (q[i-1] >= 'a' && q[i-1] <= 'z' || q[i-1] >= 'A' && q[i-1] <= 'Z') {
+			i--
+		}
+		if i < end {
+			return q[i:end]
+		}
+		end = strings.LastIndex(q[:end], "(")
+	}
+	return "-"
+}
+
+// msgClass: a message with numbers, addresses and quoted payloads erased
+func msgClass(m string) string {
+	var sb strings.Builder
+	for i := 0; i < len(m) && sb.Len() < 60; i++ {
+		ch := m[i]
+		if ch >= '0' && ch <= '9' {
+			continue
+		}
+		sb.WriteByte(ch)
+	}
+	return sb.String()
 }
